@@ -797,6 +797,29 @@ def gen_backup(rng, tier):
     sim.handles = {}
     sim.lines.append('scan 1')
     sim.lines.append('count 1')
+    if rng.random() < 0.5:
+        # restored items keep the birth epoch 0 of a lookup probe: delete (and re-insert) some of them, take a
+        # snapshot and position an iterator on exactly those keys
+        ks = [sim.key() for _ in range(rng.randrange(1, 4))]
+        for k in ks:
+            sim.lines.append('del %d %d' % (sim.w(), k))
+            sim.live.pop(k, None)
+            if rng.random() < 0.5:
+                sim.lines.append('put %d %d %d' % (sim.w(), k, rng.randrange(3) if sim.kv else 0))
+                sim.live.setdefault(k, sim.epoch)
+        sim.lines.append('snap')
+        sim.refs.append(1)
+        sim.epoch += 1
+        sn = len(sim.refs) - 1
+        sim.nit += 1
+        name = 'i%d' % sim.nit
+        sim.lines.append('it_new %s %d' % (name, sn + 1))
+        sim.refs[sn] += 1
+        sim.iters[name] = sn
+        for k in ks:
+            sim.lines.append('it_seek %s %d' % (name, k))
+            if rng.random() < 0.5:
+                sim.lines.append('it_next %s' % name)
     for _ in range(rng.randrange(0, 25)):
         sim.op()
     return sim.finish()
